@@ -125,7 +125,7 @@ class Run:
 
 
 def build(config, history, comps, out_len, estimator=None, grid=None, operation=None, tol=0.5, perform=True,
-          vectorized=None, perform_kwargs=None, sa_kwargs=None):
+          vectorized=None, perform_kwargs=None, sa_kwargs=None, observer=None):
     """Construct fresh real objects for `config`, run the real adaptive loop along `history`.
     comps: callable x -> list of out_len floats (component 0 conventionally 'drives', with the scripted
     estimator it is irrelevant).  Returns a Run with sa, op, eo, snaps [(before, after)], result."""
@@ -160,6 +160,14 @@ def build(config, history, comps, out_len, estimator=None, grid=None, operation=
             eo.pointer += 1
 
     sa.refine = refine_wrapper
+    if observer is not None:
+        orig_eval = sa.evaluate_operation
+
+        def eval_wrapper():
+            out = orig_eval()
+            observer(r)
+            return out
+        sa.evaluate_operation = eval_wrapper
     if perform:
         r.result = sa.performSpatiallyAdaptiv(config["lmin"], config["lmax"], eo, tol=tol, print_output=False,
                                               **(perform_kwargs or {}))
